@@ -20,7 +20,7 @@ ASSUMPTIONS = ["random.random() is used only through order comparisons (symbolic
                "keeps an edge is inferred from the value the code returns, not assumed",
                "phi on a rational grid; other real phi are not covered"]
 PHIS = [Fraction(0), Fraction(1, 4), Fraction(1, 2), Fraction(3, 4), Fraction(1)]
-EXTRA_PHIS = [Fraction(0.1), Fraction(0.999)]   # the floats 0.1 and 0.999 exactly (small graphs only)
+EXTRA_PHIS = [Fraction(0.1), Fraction(0.999), 1 - Fraction(1, 2 ** 35)]   # the floats 0.1 and 0.999 exactly (small graphs only)
 
 
 def instances(tier, seed):
